@@ -830,7 +830,7 @@ package secretstore
 //@   ensures [C11.api.import.refuse] old(ksh(s.deviceKeystore.keystore))["accountSK"] || old(ksh(s.deviceKeystore.keystore))["accountProofSK"] ==> ret0 != nil
 //@        && ksh(s.deviceKeystore.keystore) == old(ksh(s.deviceKeystore.keystore)) && ksk(s.deviceKeystore.keystore) == old(ksk(s.deviceKeystore.keystore))
 //@ func (*secretStore).GetOwnMemberDeviceForGroup
-//@   for C11
+//@   for C11, C12
 //@   requires s != nil && dkOK(s.deviceKeystore) && unlocked(addr(s.deviceKeystore.mu)) && g != nil
 //@   modifies ksh(s.deviceKeystore.keystore), ksk(s.deviceKeystore.keystore), lockstate(addr(s.deviceKeystore.mu))
 //@   ensures [C11.api.memberdevice] ret1 == nil && g.GroupType == 3 ==> ksh(s.deviceKeystore.keystore)["accountProofSK"]
